@@ -52,7 +52,8 @@ class C18(Prop):
     REAL_VS_STUB = {'real': ['dataflows/processors/parallelize.py (all of it)', 'Flow / iterable_loader / driver'],
                     'stub': ['multiprocessing.Queue/Process', 'threading.Thread/Lock/Event', 'queue.Queue', 'os.cpu_count/getpid', 'time (virtual clock)']}
     PROBES = ['module-constant-scaled-down', 'line-preempt-run', 'clock-jumped', 'source-stalled', 'rowfunc-stalled', 'consumer-stalled', 'bypass-resource', 'default-num-processors',
-              'empty-stream', 'nothing-selected', 'first-selected-late', 'workers>rows', 'two-parallelize-stages', 'rowfunc-raised', 'slow-worker-exit'] + ['strategy:' + x for x in sorted(set(STRATEGIES))]
+              'empty-stream', 'nothing-selected', 'first-selected-late', 'workers>rows', 'two-parallelize-stages', 'rowfunc-raised', 'slow-worker-exit',
+              'rowfunc-returns-a-value', 'two-resources-through-one-step'] + ['strategy:' + x for x in sorted(set(STRATEGIES))]
     TIERS = {'quick': dict(runs=4000, wall=100, run_wall=300),
              'thorough': dict(runs=150000, wall=1700, run_wall=600)}
     SHRINK_FROZEN = ()
@@ -92,6 +93,12 @@ class C18(Prop):
             sc['exit_delays'] = {'worker-%d' % (1 + rng.randrange(sc['workers'])): rng.choice([0.3, 2.5, 6.0])}
         if sc['strategy'] == 'starve':
             sc['starve_target'] = rng.choice(['worker-1', 'worker', 'thread-1', 'thread-2', 'xfer', 'main', 'xfer:q1', 'xfer:q2'])
+        if sc.get('bypass_rows') is not None and rng.random() < 0.5:
+            # the second resource goes through the same parallelize step (one pool of workers per resource, one after the other)
+            sc['bypass_selected'] = True
+        if rng.random() < 0.25:
+            # the row function edits the row in place, as documented, and ALSO returns something (its return value means nothing)
+            sc['ret'] = rng.choice(['value', 'dict', 'row', 'zero'])
         return sc
 
     def execute(self, sc, ctx):
@@ -118,6 +125,12 @@ class C18(Prop):
         fn_st = sc.get('func_stalls') or {}
         con_st = sc.get('consumer_stalls') or {}
         fn_raise = set(sc.get('func_raises') or [])
+        ret = sc.get('ret')
+        if ret:
+            ctx.probe('rowfunc-returns-a-value')
+        both = bool(sc.get('bypass_selected')) and sc.get('bypass_rows') is not None
+        if both:
+            ctx.probe('two-resources-through-one-step')
 
         def row_func(row):
             rid = row['_id']
@@ -131,6 +144,14 @@ class C18(Prop):
                 ctx.probe('rowfunc-raised')
                 raise ZeroDivisionError('row function fails on row %d' % rid)
             row['c'] = rid * 7 + 1
+            if ret == 'value':
+                return row['c']
+            if ret == 'dict':
+                return {'_id': -1 - rid, 'foreign': True}
+            if ret == 'row':
+                return row
+            if ret == 'zero':
+                return 0
 
         def source():
             for i in range(n):
@@ -183,7 +204,7 @@ class C18(Prop):
             kw['num_processors'] = nw
         else:
             ctx.probe('default-num-processors')
-        if byp is not None:
+        if byp is not None and not both:
             kw['resources'] = 'main'
             ctx.probe('bypass-resource')
         pred = predicate_fn(pk, n)
@@ -201,7 +222,7 @@ class C18(Prop):
                 ctx.log('apply2', row['_id'])
                 row['d'] = row['_id'] * 3 + 2
             kw2 = {'num_processors': two['workers']}
-            if byp is not None:
+            if byp is not None and not both:
                 kw2['resources'] = 'main'
             p2 = predicate_fn(two['predicate'], n)
             if p2 is not None:
@@ -305,7 +326,22 @@ class C18(Prop):
                     ctx.violation('applied-to-unselected', 'count-stage2', 'second-stage row function applied to unselected row %d' % i)
         if byp is not None:
             other = rows[names.index('other')]
-            if other != bypass_rows:
+            want_other = [dict(r) for r in bypass_rows]
+            if both:
+                for r in want_other:
+                    rid = r['_id']
+                    if selected(pk, n, rid):
+                        r['c'] = rid * 7 + 1
+                    if two and selected(two['predicate'], n, rid):
+                        r['d'] = rid * 3 + 2
+                    c, c2 = applied.get(rid, 0), applied2.get(rid, 0)
+                    if c != (1 if selected(pk, n, rid) else 0):
+                        ctx.violation('applied-not-once', 'count-other-resource', 'row function applied %d times to row %d of the other resource (selected=%s)' % (c, rid, selected(pk, n, rid)))
+                    if two and c2 != (1 if selected(two['predicate'], n, rid) else 0):
+                        ctx.violation('applied-not-once', 'count-stage2-other-resource', 'second-stage row function applied %d times to row %d of the other resource' % (c2, rid))
+                if sorted(other, key=lambda r: r.get('_id', 0)) != want_other:
+                    ctx.violation('multiset', 'other-selected-resource', 'the other resource going through the same step was delivered as %r, sequential map gives %r' % (other, want_other))
+            elif other != bypass_rows:
                 ctx.violation('multiset', 'bypass-resource', 'unselected resource changed: %r' % other)
         if any(selected(pk, n, i) for i in range(n)):
             ctx.mark_nontrivial(s.schedule_digest())
